@@ -80,6 +80,8 @@ def gen_cases(rng, tier):
     for codec in CODECS:
         cases.append(codec + " r1:10,20,0,5:7,1:p/z2:100:3:s r3:1000:999:s r4:1:1:p z5:-:1:s")
         cases.append(codec + " z7:70000,70000:65536:p r8:65536:4096,1:s")
+        # writes whose length is an exact multiple of 64 KiB / of the codecs' block sizes, each awaited before the next
+        cases.append(codec + " r9:65536,131072,32768,1:65536:p z10:262144:65536:p/r11:65536:4096:p")
     for _ in range(60 if tier == "quick" else 1200):
         cases.append(gen_case(rng, big=False))
     for _ in range(2 if tier == "quick" else 40):
